@@ -14,8 +14,11 @@ Decided (structural):
  R5 K1  SessionPerspective::revert restores by replay: the log (entries carry only the new value) is
         truncated to the checkpoint, the overlay map is cleared before any other mutation, every
         remaining log entry is re-inserted, nothing is removed slot-wise, and the result is installed.
+ R6 K2  the merge iterator of prefix queries returns only live overlay slots or the base iterator's own
+        next(): a deletion tombstone is skipped, never turned into the end of the iteration.
 Not decided: overlay/merge iterator equals the model map (value-level)."""
 from rules.core import pat, k4
+from rules.core.facts import Operand
 
 CRATES = ["aranya_runtime"]
 THOROUGH_CONFIGS = ["lowmem"]   # thorough tier: the same rules on the low-mem-usage build
@@ -194,3 +197,43 @@ def revert_rules(F, rep):
     if st:
         ok = (fresh or all(any(f.dominates(k.bb, s.bb) for k in clears) for s in st)) and all(any(f.dominates(s.bb, r.bb) for s in st) for r in late_oks)
         rep.check(ok, "revert|overlay-installed", "K1 must-pass-through", "the rebuilt map is stored into current_facts before Ok", site=site)
+    merge_iterator_rule(F, rep)
+
+
+def merge_iterator_rule(F, rep):
+    """R6: the overlay/base merge iterator of prefix queries ends only when the base iterator ends after the
+    overlay is exhausted. A deletion in the overlay (value None) is skipped by looping; it is never turned
+    into the iterator's own None."""
+    fs = [f for f in F.fns if f.name == "next" and f.self_adt and f.self_adt.endswith("session::QueryIterator")]
+    if len(fs) != 1:
+        rep.anchor_missing("Iterator::next for session::QueryIterator")
+        return
+    f = fs[0]
+    bad = []
+    n = 0
+    for s in f.stmts():
+        if s.place is not None and s.place.local == 0 and not s.place.proj:
+            n += 1
+            if s.rv_kind() == "agg" and s.rv[1].get("variant") == "Some":
+                continue
+            bad.append("%s:%d (%s)" % (f.file, s.line, s.rv_kind()))
+    for c in f.calls:
+        if c.dest is not None and c.dest.local == 0 and not c.dest.proj:
+            n += 1
+            if c.is_("Iterator::next") and "field:prior" in f.origins(c.args[0], through_calls=()):
+                continue
+            if any(m == "bug" or m.endswith("::bug") for m in c.macs):
+                continue
+            bad.append("%s (%s)" % (c.site(), c.name))
+    rep.check(not bad and n >= 2, "QueryIterator::next|ends-only-with-base", "K2 guarded-by",
+              "every value QueryIterator::next returns is Some(..) built from a live overlay slot, or the base iterator's own next() (%d return sites)" % n,
+              "QueryIterator::next can return something else (%s): an overlay entry - in particular a deletion tombstone - can end the merged prefix query early, hiding later session-written facts" % ", ".join(bad),
+              f.site())
+    # the Some(..) answers come from live slots only: dominated by the Some edge of a test on the slot's value
+    somes = [s for s in f.stmts() if s.place is not None and s.place.local == 0 and s.rv_kind() == "agg" and s.rv[1].get("variant") == "Some"]
+    opts = f.discr_switches("option::Option")
+    ok = bool(somes)
+    for s in somes:
+        ok = ok and any("Some" in x[1] and x[1]["Some"] != x[2] and f.dominates(x[1]["Some"], s.bb) and "call:next" in f.origins(Operand(["c", x[3].rv[1]]), through_calls=()) for x in opts)
+    rep.check(ok, "QueryIterator::next|tombstones-skipped", "K2 guarded-by",
+              "an overlay slot is yielded only on the Some edge of its value (a deleted fact is not yielded)", site=f.site())
